@@ -1087,6 +1087,21 @@ def mon_C17(script, outs):
             break
     if len(outs) < len(script.ops) and not fails:
         fails.append((len(outs), "no output for `%s` (did the operation return?)" % script.ops[len(outs)]))
+    if script.meta.get("module") == "adsr" and fam != "extreme" and not fails:
+        # liveness: with a legal sample rate every tick of a timed phase must advance the position
+        # (the increment is at least 4), otherwise the envelope can never reach sustain / rest
+        fs = unhx(script.ops[0].split()[1])
+        if not isnan(fs) and 100.0 <= fs <= 192000.0:
+            prev = None
+            for i, o in enumerate(outs):
+                t = o.split()
+                if len(t) != 3:
+                    break
+                st, acc = int(t[0]), int(t[1])
+                if script.ops[i] == "tick" and prev is not None and prev[0] in (1, 2, 4) and st == prev[0] and acc <= prev[1]:
+                    fails.append((i, "phase %d makes no progress (position %d -> %d): the envelope can never finish this phase" % (st, prev[1], acc)))
+                    break
+                prev = (st, acc)
     if script.meta.get("module") == "adsr" and fam == "phase" and not fails:
         states = [int(o.split()[0]) for o in outs if o and o[0].isdigit()]
         if 3 not in states:
